@@ -9,7 +9,9 @@ import random
 
 from core import load_gen
 
-P1S = ["greedy", "dfs"]
+# "dfsrand" / "randdfs": the depth-first breaker together with the greedy breaker's node-choice option (either order):
+# an option that does not concern the selected algorithm must be ignored
+P1S = ["greedy", "dfs", "dfsrand"]
 P2S = ["ns", "lp"]
 P4_SIZE_AWARE = ["sink", "valign", "pack", "nspos"]
 P4_ALL = ["sink", "valign", "pack", "nspos", "bk", "bk0", "bk1", "bk2", "bk3"]
